@@ -62,6 +62,12 @@ func init() {
 		RequirePositive: "cmp:", RequireCount: 32,
 	})
 	reg(&propCfg{
+		ID: "C09", Level: "exploration", Race: "both",
+		Rule: "61 indicators and all strategies (registry rows at default and random configurations, compounds incl. AllAndStrategies/AllSplitStrategies members that share base instances, decorators): on ONE instance the call sequence A,B,A,D,C (inputs of different lengths and classes; strategies: Compute and Report rendering) is compared bit-for-bit with fresh instances, a reflective deep fingerprint of the instance (unexported fields included) is taken before and after every call, then 8 (strategies: 6) calls are released simultaneously on the same instance at GOMAXPROCS=16 and compared with the sequential results. The race phase repeats the concurrent batch R times (3 quick / 10 thorough) in a -race build with halt_on_error=0 and counts WARNING: DATA RACE blocks, de-duplicated by outermost library frame pair. distinct_nontrivial counts distinct (pipeline, configuration) pairs.",
+		Shards: [2]int{16, 16}, MinEvals: [2]int{300, 1000},
+		RequirePositive: "cmp:", RequireCount: 93,
+	})
+	reg(&propCfg{
 		ID: "C07", Level: "exploration",
 		Rule: "the real And/Or/Majority/Split/Inverse/NoLoss/StopLoss combinators (and nestings NoLoss(StopLoss), StopLoss(NoLoss), Inverse(NoLoss), NoLoss(Inverse), NoLoss(And)) wrap scripted stub strategies that replay chosen action words; the output is compared with slice models of the specified combination (votes over position-wise DENORMALISED words, split rule, swap, explicit no-loss / stop-loss state machines over (action, close)) and, independently, with two trace safety monitors (no Sell at a close not above the preceding Buy's close; a Sell at the first close <= buy*(1-pct)). Exhaustive: all tuples of k words of length n for k=1 (n<=7), k=2 (n<=4), k=3 (n<=2 quick / n<=3 thorough) x 4 closing series x 3 percentages where relevant; plus random words up to length 200 with up to 6 sub-strategies. MACD-RSI is compared with the agreement rule over its own two real sub-strategies. distinct_nontrivial counts distinct (shape, word tuple) cases with n >= 2.",
 		Exhaustive: "all k-tuples of action words over {Sell,Hold,Buy}: k=1 n<=7, k=2 n<=4, k=3 n<=2 (quick) / n<=3 (thorough), for every combinator shape",
